@@ -103,6 +103,19 @@ class Oracle:
             self.dist[k] = float(getattr(v, "value", v))
         return self.dist[k]
 
+    def DM(self, ident, z):
+        """transverse comoving distance: the distance measure of the units kpc/h and Mpc/h (options.Unit); astropy's own
+        for its cosmologies, (1 + z) D_A - its definition - for a custom cosmology, whose interface has nothing else"""
+        k = ("M", ident, float(z))
+        if k not in self.dist:
+            cos = cosmo_object(ident)
+            if hasattr(cos, "comoving_transverse_distance"):
+                v = cos.comoving_transverse_distance(float(z))
+                self.dist[k] = float(getattr(v, "value", v))
+            else:
+                self.dist[k] = self.DA(ident, z) * (1.0 + float(z))
+        return self.dist[k]
+
     def comoving_grid(self, ident, zmin, zmax, n):
         """[(d_i, z_at_value(d_i))] for the linear grid between D(zmin) and D(zmax).  The inner
         points are inverted together (what the repaired factory does); the two end points, which
@@ -609,7 +622,7 @@ class Run:
             return None
         rs = as_list(rmin) + as_list(rmax)
         ang = [float(x) for x in np.atleast_1d(amin)] + [float(x) for x in np.atleast_1d(amax)]
-        DA, DC = self.oracle.DA(used, z), self.oracle.D(used, z)
+        DA, DC = self.oracle.DA(used, z), self.oracle.DM(used, z)
         term = "c15_angle_case %s %s %s %s %s %s" % (coq_unit(unit), fq.q(float(np.pi / 180.0)), fq.q(DA), fq.q(DC),
                                                     fq.qlist(rs), fq.qlist(ang))
         self.cases["angle"].append(dict(term=term, unit=unit, rmin=rmin, rmax=rmax, z=z, cosmology=ident,
@@ -639,7 +652,7 @@ class Run:
                           % (type(e).__name__, unit, family), dict(unit=unit, rmin=rmin, rmax=rmax, z=z, cosmology=label))
             return
         ref = getattr(ac, family)(**kw)      # independent object with the same parameters = the oracle
-        DA, DC = float(ref.angular_diameter_distance(float(z)).value), float(ref.comoving_distance(float(z)).value)
+        DA, DC = float(ref.angular_diameter_distance(float(z)).value), float(ref.comoving_transverse_distance(float(z)).value)
         rs = as_list(rmin) + as_list(rmax)
         try:
             ang = [float(x) for x in np.atleast_1d(amin)] + [float(x) for x in np.atleast_1d(amax)]
@@ -1046,6 +1059,12 @@ class Sym:
 
     __rmul__ = __mul__
 
+    def __add__(self, o):
+        return Sym("(%s + %s)" % (self.e, Sym.lit(o)))
+
+    def __radd__(self, o):
+        return Sym("(%s + %s)" % (Sym.lit(o), self.e))
+
     def deg2rad(self):          # numpy calls the method of the same name on object arrays
         return Sym("(%s * pi180)" % self.e)
 
@@ -1055,6 +1074,9 @@ class SymCosmology:
         return Sym("DA")
 
     def comoving_distance(self, z):
+        return Sym("DLOS")      # line of sight: not the distance measure of any unit
+
+    def comoving_transverse_distance(self, z):
         return Sym("DC")
 
 
@@ -1064,7 +1086,7 @@ def trace_obligations(ctx):
     for u, cu in UNITS.items():
         try:
             sc = new_scales(1.0, 2.0, unit=u)
-            out = sc._compute_angle(np.array([Sym("r")], dtype=object), 0.5, SymCosmology())
+            out = sc._compute_angle(np.array([Sym("r")], dtype=object), Sym("z"), SymCosmology())
             expr = np.atleast_1d(out)[0]
             expr = expr.e if isinstance(expr, Sym) else None
         except Exception as e:  # noqa: BLE001
@@ -1074,10 +1096,13 @@ def trace_obligations(ctx):
             status.setdefault(u, "trace-unavailable")
             continue
         status[u] = expr
-        lemmas.append((u, "Lemma trace_%s : forall r pi180 DA DC : Q, ~ DA == 0 -> ~ DC == 0 ->\n"
+        # DC is the transverse comoving distance, by definition (1 + z) times the angular diameter distance; DLOS (the
+        # line-of-sight comoving distance) is under no hypothesis: an expression that uses it proves nothing
+        lemmas.append((u, "Lemma trace_%s : forall r pi180 DA DC DLOS z : Q, ~ DA == 0 -> ~ DC == 0 -> ~ 1 + z == 0 ->\n"
+                          "  DC == DA * (1 + z) ->\n"
                           "  %s == angle_spec %s pi180 DA DC r.\n"
-                          "Proof. intros r pi180 DA DC HA HC. unfold angle_spec, unit_factor, unit_dist. "
-                          "field; auto. Qed.\n" % (cu, expr, cu)))
+                          "Proof. intros r pi180 DA DC DLOS z HA HC HZ HT. unfold angle_spec, unit_factor, unit_dist. "
+                          "try rewrite HT. field; auto. Qed.\n" % (cu, expr, cu)))
     ctx.extra["trace_status"] = status
     for u, lem in lemmas:
         path = os.path.join(ctx.workdir, "Trace_C15_%s.v" % UNITS[u])
